@@ -215,7 +215,11 @@ def buffer_rule(ctx, r):
     if not fb:
         r.bad("quit|find", "the Quit arm does not look for the binary byte", fn=f)
     else:
-        s = seed_after_call(f, fb[0], V("Some", None), stop_blocks=hdrs)
+        # (the mode is Quit wherever it is asked again after the scan — `if self.config.binary.is_quit()`)
+        from ..flow import combinator_model as _cmq
+        fmq = lambda o_, n_: V("Quit", I(0)) if (o_ == LBC and n_ == "binary") else None
+        s = seed_after_call(f, fb[0], V("Some", None), stop_blocks=hdrs, field_model=fmq,
+                            call_model=_cmq(facts, None, field_model=fmq, callees=lambda p_: p_.startswith(LBD + "::")))
         w = {}
         for bb, j, st in f.stmts():
             if bb in s.exec_blocks and st["k"] == "assign":
